@@ -123,7 +123,7 @@ func runC04(c *Ctx) {
 		okV := true
 		rs := successReturns(f, 0)
 		for _, s := range rs {
-			call, _ := callOf(s.Instr.(*ssa.Return).Results[0])
+			call, _ := callOf(retResult(s.Instr.(*ssa.Return), 0))
 			okV = okV && call != nil && matchFunc(calleeObj(call), Ref{"cert", ver.recv, "validate"})
 		}
 		c.Check(okV && len(rs) > 0, "C04.signwith", ver.recv+".fromTBSCertificate:returns-validate", c.P.Pos(f.Pos()), "result is validate()", "fromTBSCertificate can succeed without validate()")
